@@ -28,6 +28,9 @@ IGNORE_BATTERY = [
     ("plain", "local a   = 1\nlocal b   = 2\n", [], [], ["local a = 1\n", "local b = 2\n"]),
     ("ignore-then-normal", "-- stylua: ignore\nlocal a   = 1\nlocal b   = 2\nlocal c   = 3\n", [], ["local a   = 1\n"], ["local b = 2\n", "local c = 3\n"]),
     ("call-semi", "-- stylua: ignore\nf  ( a );\n(g)()\n", [], ["f  ( a );\n"], []),
+    ("region-starts-on-last", "function f()\n\tlocal a   = 1\n\t-- stylua: ignore start\n\treturn   { 1,0,\n\t           0,1 } ;\nend\n", [], ["return   { 1,0,\n\t           0,1 } ;\n"], ["local a = 1\n"]),
+    ("region-ends-on-last", "function f()\n\t-- stylua: ignore start\n\tlocal a   = 1\n\t-- stylua: ignore end\n\treturn   a\nend\n", [], ["local a   = 1\n"], ["\treturn a\n"]),
+    ("region-starts-on-last-break", "while x do\n\tf()\n\t-- stylua: ignore start\n\tbreak   ;\nend\n", [], ["break   ;\n"], ["\tf()\n"]),
     ("eof-comment", "-- stylua: ignore start\nlocal a   = 1\n-- trailing   comment\n", [], ["local a   = 1\n"], []),
 ]
 RANGE_BATTERY = [
@@ -85,7 +88,7 @@ def run_battery(battery):
 
 SEMI = {"stmt-semi", "stmt-semi-comment", "last-semi", "region-semi", "nested-semi", "call-semi", "range-second", "range-first", "range-last",
         "range-both-semis", "range-ignore-inside", "range-required-semi", "range-second-exact"}
-TOGGLE = {"region", "no-leak", "end-directive", "second-directive-wins", "eof-comment", "plain"}
+TOGGLE = {"region-starts-on-last", "region-ends-on-last", "region-starts-on-last-break", "region", "no-leak", "end-directive", "second-directive-wins", "eof-comment", "plain"}
 
 
 def scenarios_for(kind, names):
@@ -94,6 +97,8 @@ def scenarios_for(kind, names):
         return [n for n in names if n in SEMI] + [n for n in names if n not in SEMI]
     if kind == "toggle":
         return [n for n in names if n in TOGGLE]
+    if kind == "ignored-in-range":
+        return list(names)
     return [n for n in names if n not in SEMI]
 
 
@@ -138,7 +143,8 @@ def run(ses, rep):
     flagged = analyses(ses, rep)
     rep.samples.append({"flagged": [(f[0], f[1]) for f in flagged][:5]})
     confirm(rep, flagged, IGNORE_BATTERY, "C08", ("ignore", "toggle", "both"))
-    others = [f for f in flagged if f[2] not in ("ignore", "toggle", "both")]
+    confirm(rep, flagged, [b for b in RANGE_BATTERY if "ignore" in b[0]], "C08", ("ignored-in-range",))
+    others = [f for f in flagged if f[2] not in ("ignore", "toggle", "both", "ignored-in-range")]
     rep.extra["flagged_for_C09"] = [f[0] for f in others]
 
 
